@@ -283,7 +283,16 @@ def r_value_to_structural(ctx, rid='R07.9'):
         ctx.ob(rid, 'to-structural:' + k, got.get(k) == exp.get(k), 'Value %s ↦ %s' % (k, exp.get(k)), fn.where(), 'found %s' % got.get(k) if got.get(k) != exp.get(k) else None)
 
 
+LAYOUT_GROUP = r"^(<types::StructuralType as types::TypeConstructible>::|<value::StructuralValue as value::ValueConstructible>::|<value::Value as value::ValueConstructible>::|<types::ResolvedType as types::TypeConstructible>::|value::destruct::|<value::StructuralValue as std::convert::From<|<types::StructuralType as std::convert::From<types::UIntType>>::from|array::|<array::)"
+
+
+def r_layout_tables(ctx, rid):
+    from . import c04
+    c04.group_rule(ctx, rid, LAYOUT_GROUP, 'layout constructors, destructors and the tree/partition folds: complete bodies (every path, call and value)', 30)
+
+
 def check(ctx):
+    r_layout_tables(ctx, 'R07.10')
     r_value_to_structural(ctx)
     r_reconstruct(ctx)
     layout.r_btree(ctx, 'R07.1')
